@@ -103,3 +103,19 @@ func (s *Sched) raceReport(msg string) {
 	s.raceSeen[msg] = true
 	Violationf("%s", msg)
 }
+
+// RV / WV record a read / write of a local variable that some closure assigns to (the
+// rewriter turns `err` into `(*verifrt.WV(&err, "site"))`), for the same conflict check.
+func RV[T any](p *T, site string) *T {
+	if S != nil {
+		access(unsafe.Pointer(p), false, site)
+	}
+	return p
+}
+
+func WV[T any](p *T, site string) *T {
+	if S != nil {
+		access(unsafe.Pointer(p), true, site)
+	}
+	return p
+}
